@@ -243,13 +243,13 @@ def eval_roundtrip(pio, case):
             cp.read_string(ini_txt)
         except Exception as e:
             fails.append(("ini-unreadable", "parsable INI", repr(e)))
-            return fails
+            return [{"bucket": b, "case": dict(case, kind="roundtrip"), "expected": str(e), "observed": str(o)} for b, e, o in fails]
         import re as _re
 
         want_env = "env:" + _re.sub(r"[^A-Za-z0-9_]+", "_", case["board"])
         if cp.sections() != [want_env]:
             fails.append(("ini-sections", [want_env], cp.sections()))
-            return fails
+            return [{"bucket": b, "case": dict(case, kind="roundtrip"), "expected": str(e), "observed": str(o)} for b, e, o in fails]
         sec = dict(cp[want_env])
         want_libs = []
         for x in case["libs"] or []:
